@@ -877,6 +877,10 @@ pub struct BigHasherState {
     pub via_decide: bool,
     /// falsify one literal of the first open clause
     pub restrict: bool,
+    /// Some(k): the first open clause is the nearest wide clause (5..24 literals) and all but 1 + k % 12 of its
+    /// literals are falsified
+    #[serde(default)]
+    pub wide_open: Option<u8>,
 }
 
 #[derive(Clone, Debug, Serialize, Deserialize)]
@@ -885,6 +889,9 @@ pub struct BigHasherCase {
     pub clauses: u16,
     /// false: every clause has two literals; true: two to four literals, chosen per clause
     pub mixed: bool,
+    /// about one clause in this many (0 = none) is wide: 5..24 literals
+    #[serde(default)]
+    pub wide_every: u8,
     pub seed: u64,
     pub states: Vec<BigHasherState>,
 }
@@ -921,7 +928,14 @@ pub fn run_big_hasher(case: &BigHasherCase, st: &mut Stats) -> CaseResult {
     let mut next_var = 0usize;
     for i in 0..m {
         let x = r(i as u64);
-        let w = if case.mixed { 2 + (x >> 50) as usize % 3 } else { 2 };
+        let wide = case.wide_every > 0 && (x >> 20) % (case.wide_every as u64) == 0;
+        let w = if wide {
+            5 + (x >> 30) as usize % 20
+        } else if case.mixed {
+            2 + (x >> 50) as usize % 3
+        } else {
+            2
+        };
         gen.push((0..w).map(|j| Literal::new(VarLabel::new_usize(next_var + j), (x >> j) & 1 == 1)).collect());
         next_var += w;
     }
@@ -951,14 +965,25 @@ pub fn run_big_hasher(case: &BigHasherCase, st: &mut Stats) -> CaseResult {
     });
     let mut h = cnf.hasher().clone();
     // (open clause set, restrict?) -> expanded list of states
-    let mut plan: Vec<(BTreeSet<usize>, bool, bool)> = Vec::new();
+    let mut plan: Vec<(BTreeSet<usize>, bool, bool, Option<(usize, usize)>)> = Vec::new();
     let mut far_pairs = 0u64;
+    let wide_idx: Vec<usize> = (0..clauses.len()).filter(|i| clauses[*i].len() >= 5).collect();
     for s in case.states.iter() {
-        let open: BTreeSet<usize> = s.open.iter().take(3).map(|o| ((*o as usize) * clauses.len()) >> 16).collect();
+        let mut open: BTreeSet<usize> = s.open.iter().take(3).map(|o| ((*o as usize) * clauses.len()) >> 16).collect();
         if open.is_empty() {
             continue;
         }
-        plan.push((open.clone(), s.via_decide, s.restrict));
+        if let (Some(k), false) = (s.wide_open, wide_idx.is_empty()) {
+            // one wide clause, open on 1..12 of its literals, possibly next to the picked narrow clauses
+            let first = *open.iter().next().unwrap();
+            let w = *wide_idx.iter().min_by_key(|i| (**i as isize - first as isize).abs()).unwrap();
+            open.remove(&first);
+            open.insert(w);
+            let keep = (1 + (k as usize) % 12).min(clauses[w].len());
+            plan.push((open.clone(), s.via_decide, false, Some((w, keep))));
+            continue;
+        }
+        plan.push((open.clone(), s.via_decide, s.restrict, None));
         // the companion: every open clause replaced by the clause that starts `d` occurrences later
         let d = OFFSETS[s.offset as usize % OFFSETS.len()];
         let shifted: Option<BTreeSet<usize>> = open
@@ -970,18 +995,33 @@ pub fn run_big_hasher(case: &BigHasherCase, st: &mut Stats) -> CaseResult {
             .collect();
         if let Some(sh) = shifted {
             if sh != open {
-                plan.push((sh, !s.via_decide, s.restrict));
+                plan.push((sh, !s.via_decide, s.restrict, None));
                 far_pairs += 1;
             }
         }
     }
     let mut seen: Vec<(HashedCNF, Resid, Option<u128>, BTreeSet<(usize, usize)>)> = Vec::new();
-    for (si, (open, via_decide, restrict)) in plan.iter().enumerate() {
+    let mut widest_clause_bits = 0u32;
+    for (si, (open, via_decide, restrict, wide)) in plan.iter().enumerate() {
         h.push();
         let mut model: Vec<Option<bool>> = vec![None; n];
         for (ci, c) in clauses.iter().enumerate() {
             let x = r(0x5151 ^ ((si as u64) << 32) ^ ci as u64);
             if open.contains(&ci) {
+                if let Some((w, keep)) = wide {
+                    if *w == ci {
+                        // falsify all but `keep` literals, chosen by the seed
+                        let order = crate::big::permutation(x, c.len());
+                        for j in order.iter().skip(*keep) {
+                            let (v, p) = c[*j];
+                            model[v] = Some(!p);
+                            if *via_decide && (x >> (j % 40)) & 1 == 1 {
+                                h.decide(Literal::new(VarLabel::new_usize(v), !p));
+                            }
+                        }
+                        continue;
+                    }
+                }
                 if *restrict && Some(&ci) == open.iter().next() && c.len() >= 2 {
                     let (v, p) = c[x as usize % c.len()];
                     model[v] = Some(!p);
@@ -1019,6 +1059,8 @@ pub fn run_big_hasher(case: &BigHasherCase, st: &mut Stats) -> CaseResult {
                     occ_now.insert((ci, li));
                 }
             }
+            let cp: Option<u128> = c.iter().enumerate().filter(|(_, (v, _))| model[*v].is_none()).try_fold(1u128, |a, (li, _)| a.checked_mul(primes[occ_start[ci] + li]));
+            widest_clause_bits = widest_clause_bits.max(cp.map(|x| 128 - x.leading_zeros()).unwrap_or(129));
             resid.insert((ci, c.iter().copied().filter(|(v, _)| model[*v].is_none()).collect()));
         }
         st.bump("bighasher.hashed_states");
@@ -1090,8 +1132,14 @@ pub fn run_big_hasher(case: &BigHasherCase, st: &mut Stats) -> CaseResult {
         }
         seen.push((hv, resid, product, occ_now));
     }
+    st.bump(match widest_clause_bits {
+        0..=32 => "bighasher.largest_single_clause_product.upto_32_bits",
+        33..=64 => "bighasher.largest_single_clause_product.33_64_bits",
+        65..=128 => "bighasher.largest_single_clause_product.65_128_bits",
+        _ => "bighasher.largest_single_clause_product.above_128_bits",
+    });
     st.add("bighasher.state_pairs_a_fixed_number_of_occurrences_apart", far_pairs);
-    if occurrences > 1024 && far_pairs >= 1 {
+    if occurrences > 1024 && (far_pairs >= 1 || widest_clause_bits > 64) {
         st.mark_nontrivial();
     }
     Ok(())
@@ -1122,15 +1170,27 @@ fn factors_over(mut x: u128, primes: &[u128]) -> Option<Vec<u128>> {
 impl SubCheckT for BigHasher {
     type Case = BigHasherCase;
     const NAME: &'static str = "hasher_many_occurrences";
-    const RULE: &'static str = "CnfHasher of 300..2300 clauses over variables of their own (two literals each, or two to four), i.e. 600..6000 literal occurrences: states that satisfy every clause but 1..3 open ones (through decide() and the model, or the model alone; optionally one literal of an open clause falsified), each paired with the state whose open clauses start 64 / 256 / 512 / 1000 / 1024 / 1536 / 2048 / 4096 occurrences further on; over all pairs of states of a case: equal residuals => equal hashes, different residuals with products within 128 bits => different hashes sharing exactly as many prime factors as residual occurrences; each exact hash value factors into one distinct prime per residual occurrence. Non-trivial: more than 1024 occurrences and at least one such pair";
+    const RULE: &'static str = "CnfHasher of 300..2300 clauses over variables of their own (two literals each, or two to four; in half the cases one clause in 8..60 has 5..24 literals), i.e. 600..9000 literal occurrences: states that satisfy every clause but 1..3 open ones (a wide clause is left open on 1..12 of its literals, the others falsified, so that a single clause's product passes 2^64) (through decide() and the model, or the model alone; optionally one literal of an open clause falsified), each paired with the state whose open clauses start 64 / 256 / 512 / 1000 / 1024 / 1536 / 2048 / 4096 occurrences further on; over all pairs of states of a case: equal residuals => equal hashes, different residuals with products within 128 bits => different hashes sharing exactly as many prime factors as residual occurrences; each exact hash value factors into one distinct prime per residual occurrence. Non-trivial: more than 1024 occurrences and at least one such pair or a single clause whose product passes 2^64";
     fn cases(tier: Tier) -> u32 {
         tier.pick(80, 1500)
     }
     fn strategy(_tier: Tier) -> BoxedStrategy<BigHasherCase> {
-        let state = (proptest::collection::vec(any::<u16>(), 1..=3), 0u8..8, any::<bool>(), proptest::bool::weighted(0.3))
-            .prop_map(|(open, offset, via_decide, restrict)| BigHasherState { open, offset, via_decide, restrict });
-        (prop_oneof![1 => 300u16..=520, 5 => 521u16..=1100, 3 => 1101u16..=2300], proptest::bool::weighted(0.4), any::<u64>(), proptest::collection::vec(state, 1..=4))
-            .prop_map(|(clauses, mixed, seed, states)| BigHasherCase { clauses, mixed, seed, states })
+        let state = (
+            proptest::collection::vec(any::<u16>(), 1..=3),
+            0u8..8,
+            any::<bool>(),
+            proptest::bool::weighted(0.3),
+            proptest::option::weighted(0.5, any::<u8>()),
+        )
+            .prop_map(|(open, offset, via_decide, restrict, wide_open)| BigHasherState { open, offset, via_decide, restrict, wide_open });
+        (
+            prop_oneof![1 => 300u16..=520, 5 => 521u16..=1100, 3 => 1101u16..=2300],
+            proptest::bool::weighted(0.4),
+            prop_oneof![1 => Just(0u8), 1 => 8u8..=60],
+            any::<u64>(),
+            proptest::collection::vec(state, 1..=4),
+        )
+            .prop_map(|(clauses, mixed, wide_every, seed, states)| BigHasherCase { clauses, mixed, wide_every, seed, states })
             .boxed()
     }
     fn run(case: &BigHasherCase, st: &mut Stats) -> CaseResult {
